@@ -344,6 +344,30 @@ func crashed(r binRes) bool {
 var breakers = []string{")", "1 +", "+ )", "\"open", "x = ", "if", "99999999999999999999", "$", "a b )", "[1, 2", "} }", "else 1", "\x00", "1 = 2", "for x <- ", "(a, 1) -> a"}
 
 func c06BinaryNoExec(t *testing.T, rec *ev.Recorder, n int, seed int) {
+	// one physical line longer than the buffers of line readers (4 KiB, 64 KiB), rejected as a whole
+	for i, pad := range []int{4100, 65530, 65600, 70000 + seed%7*1000, 140000} {
+		mark := fmt.Sprintf("LONG%d", i)
+		for j, line := range []string{
+			// (the text written is spelled in two halves, so that the echo of the source line in the error message does not hold it)
+			fmt.Sprintf("write(\"LO\" + \"NG%d\")%swrite(\"LO\" + \"NG%d\") )", i, strings.Repeat(" ", pad), i),
+			fmt.Sprintf("write(\"LO\" + \"NG%d\" + \"%s\") ]", i, strings.Repeat("x", pad)),
+			fmt.Sprintf("zl = [%s1] write(\"LO\" + \"NG%d\") (", strings.Repeat("1, ", pad/3), i),
+		} {
+			if _, perr := parser.Parse(line); perr == nil {
+				t.Fatalf("harness: long line %d/%d is accepted by the parser", i, j)
+			}
+			r := runCalc(t, "file", line+"\n", "")
+			if crashed(r) {
+				ev.Repro("C06", "binary", map[string]any{"mode": "file", "script": line + "\n"})
+				t.Fatalf("file mode aborts on a rejected line of %d bytes:\n%s", len(line), clipS(lastLines(r.out, 6)))
+			}
+			if strings.Contains(stripEcho(r.out, mark), mark) {
+				ev.Repro("C06", "binary", map[string]any{"mode": "file", "script": line + "\n"})
+				t.Fatalf("file mode executes part of a rejected line of %d bytes (shape %d)", len(line), j)
+			}
+			rec.Case(fmt.Sprintf("B|long line %d shape %d", len(line), j), true, "binary-no-exec-long-line")
+		}
+	}
 	for i := 0; i < n; i++ {
 		brk := breakers[(i+seed)%len(breakers)]
 		mark := fmt.Sprintf("EXEC%d", i)
